@@ -571,11 +571,58 @@ def load_allow():
         return {e["key"]: e for e in json.load(f)["sites"]}
 
 
+def load_patterns():
+    path = os.path.join(VERIF, "allow", "panic_sites.json")
+    if not os.path.exists(path):
+        return []
+    with open(path) as f:
+        return json.load(f).get("patterns", [])
+
+
+def stores_to(site):
+    """For an overflow assert: the `Adt.field` places the checked result is stored to (the counter being updated)."""
+    if site.kind != "assert" or not site.what.startswith("Overflow("):
+        return set()
+    fn = site.fn
+    cl = _local_of(site.t["cond"])
+    if cl is None:
+        pl = site.t["cond"].get("copy") or site.t["cond"].get("move")
+        cl = pl["l"] if pl else None
+    if cl is None:
+        return set()
+    out = set()
+    for b, i, st in fn.assigns():
+        rv = st["rv"]
+        if rv["k"] != "use":
+            continue
+        pl = rv["a"].get("copy") or rv["a"].get("move")
+        if not pl or pl["l"] != cl:
+            continue
+        proj = st["lhs"]["p"]
+        if proj and isinstance(proj[-1], dict) and "f" in proj[-1] and proj[-1].get("adt"):
+            out.add("%s.%s" % (proj[-1]["adt"], proj[-1]["f"]))
+        else:
+            out.add("?")
+    return out
+
+
+def match_pattern(site, pats):
+    for pt in pats:
+        if pt.get("kind") != site.kind or pt.get("what") != site.what:
+            continue
+        if "stores_to" in pt:
+            st = stores_to(site)
+            if st == {pt["stores_to"]}:
+                return pt
+    return None
+
+
 def check_cone(r, p, cone, prop, allow=None, satisfied=(), ordinal=True):
     """Evaluate the inventory over `cone` under rule recorder r.
     allow: dict key -> entry {reason, requires?}; `satisfied` = rule ids established in this run."""
     allow = load_allow() if allow is None else allow
     sites = inventory(p, cone)
+    pats = load_patterns()
     seen = {}
     stats = {"sites": 0, "guard": 0, "allow": 0, "flagged": 0}
     for s in sites:
@@ -590,7 +637,7 @@ def check_cone(r, p, cone, prop, allow=None, satisfied=(), ordinal=True):
             stats["guard"] += 1
             r.ok("site:" + k, fn=s.fn, site=s.at, detail="discharged by guard: " + g)
             continue
-        ent = allow.get(k)
+        ent = allow.get(k) or match_pattern(s, pats)
         if ent and (not ent.get("requires") or ent["requires"] in satisfied):
             stats["allow"] += 1
             r.ok("site:" + k, fn=s.fn, site=s.at, detail="allow-listed: %s%s" % (ent["reason"], (" [established by %s]" % ent["requires"]) if ent.get("requires") else ""))
